@@ -1,6 +1,18 @@
 """C05 — event queues: one event per step, internal first, FIFO, delays respected."""
+from sismic.model import BasicState, CompoundState, Statechart
+
 from .. import gen, oracles
+from ..encode import ChartEnc
+from ..framework import Case
 from ..interp_prop import InterpProp, ev_delay
+
+
+def sink_chart():
+    """a statechart that reacts to nothing: every event it is given is consumed by an empty step"""
+    sc = Statechart('sink')
+    sc.add_state(CompoundState('k', initial='k0'), None)
+    sc.add_state(BasicState('k0'), 'k')
+    return sc
 
 
 class C05(InterpProp):
@@ -23,7 +35,56 @@ class C05(InterpProp):
             'non-trivial = a run in which ≥2 tickets were pending at once with equal due time or of both classes')
 
     def knobs(self, rnd, tier):
-        return gen.Knobs(sends=0.5, p_eventless=0.15, max_states=rnd.choice([6, 10, 14]), p_guard=0.35, clock_moves=0.4)
+        return gen.Knobs(sends=0.5, p_eventless=0.15, max_states=rnd.choice([6, 10, 14]), p_guard=0.35, clock_moves=0.4,
+                         neg_delays=True)
+
+    def gen_case(self, rnd, tier):
+        case = super().gen_case(rnd, tier)
+        if 'history' not in case.payload and rnd.random() < 0.25:
+            # a second interpreter bound to the first: what the first sends reaches it once
+            sink = sink_chart()
+            p = case.payload
+            p['charts'].append(ChartEnc(sink).json)
+            p['ops'] = [p['ops'][0], ['create', 1, False, [], 0], ['bind', 0, 1]] + p['ops'][1:] + \
+                [['execute', 1, 10 ** 6, 0]]
+            p['sink'] = True
+            case.aux['charts'].append(sink)
+        return case
+
+    def rebuild(self, payload):
+        aux = super().rebuild(payload) if not payload.get('sink') else None
+        if aux is None:
+            from ..decode import chart_from_json
+            charts = [chart_from_json(j) for j in payload['charts']]
+            payload['charts'] = [ChartEnc(sc).json for sc in charts]
+            aux = {'charts': charts}
+        return aux
+
+    def post_oracle(self, case, obs, res):
+        super().post_oracle(case, obs, res)
+        p = case.payload
+        if not p.get('sink') or res.violations:
+            return
+        # every internal event the first interpreter sent is consumed exactly once by the bound one
+        sent, clean = [], True
+        for op, ob in zip(p['ops'], obs['obs']):
+            r = ob['r']
+            if op[0] == 'exec' and op[1] == 0 and isinstance(r, dict):
+                if r['outcome'] == 'error':
+                    clean = False
+                if r['outcome'] == 'step':
+                    sent += [e['event'] for m in r['step']['steps'] for e in m['sent'] if e['internal']]
+        last = obs['obs'][-1]['r']
+        if not clean or not isinstance(last, dict) or last.get('err'):
+            return
+        got = [m['event'] for st in last['steps'] for m in st['steps'] if m['event'] is not None]
+        key = lambda e: (e['ev'], str(e['data']))
+        if sorted(map(key, got)) != sorted(map(key, sent)):
+            res.violations.append('the bound interpreter consumed %d events %s, the sender sent %d internal events %s: an event was '
+                                  'lost or duplicated on the way' % (len(got), [e['ev'] for e in got][:12], len(sent),
+                                                                       [e['ev'] for e in sent][:12]))
+        if sent:
+            res.features.add('forwarded-to-bound-interpreter')
 
     def make_ops(self, rnd, knobs, sc):
         ops = []
@@ -34,7 +95,7 @@ class C05(InterpProp):
             if c < 0.45:
                 data = [['v', rnd.randint(0, 4)], ['b', rnd.random() < 0.5]]
                 if rnd.random() < 0.55:
-                    d = rnd.randint(0, 3)
+                    d = rnd.randint(-1, 3)
                     data.append(['delay', d])
                     dues.append(t + d)
                 name = rnd.choice(gen.EVENTS) if rnd.random() < 0.85 else 'zz'
@@ -82,6 +143,16 @@ class C05(InterpProp):
                                       % (k, nxt['ev']['ev'], nxt['due'], t))
             return
         step = r['step']
+        # what is sent carries the delay the code gave it (`send(..., delay=d)`: d of any sign, 0 included)
+        for m in step['steps']:
+            want = oracles.sent_in_source_order(info['sc'], info['trans'], m, with_delay=True)
+            if want is None:
+                continue
+            want = [(n, d) for kind, n, d in want if kind == 'send']
+            got = [(e['event']['ev'], dict(map(tuple, e['event']['data'])).get('delay')) for e in m['sent'] if e['internal']]
+            if got != want:
+                res.violations.append('step %d: the code sends %s (name, delay), the events sent are %s' % (k, want, got))
+                return
         evs = [m['event'] for m in step['steps'] if m['event'] is not None]
         if any(e != evs[0] for e in evs):
             res.violations.append('step %d: more than one event in a macro step' % k)
